@@ -173,6 +173,11 @@ func offSection(r *vlib.Run) {
 		var polys []pinfo
 		for p := 0; p < np; p++ {
 			n := 4 + rng.Intn(5)
+			if p == 0 && c.Index%40 == 7 {
+				// one face with 900-1700 corners: its line in the file is 5-10 kB long
+				n = 900 + rng.Intn(800)
+				c.Count("off.faces_with_a_line_longer_than_4096_bytes", 1)
+			}
 			u := C3{X: rng.NormFloat64(), Y: rng.NormFloat64(), Z: rng.NormFloat64()}.Normalize()
 			w := C3{X: rng.NormFloat64(), Y: rng.NormFloat64(), Z: rng.NormFloat64()}
 			v := w.Sub(u.Scale(w.Dot(u))).Normalize()
@@ -227,6 +232,9 @@ func offSection(r *vlib.Run) {
 		}
 		text := b.String()
 		wit := map[string]interface{}{"text": text}
+		if len(text) > 4000 {
+			wit = map[string]interface{}{"text_head": text[:600], "text_bytes": len(text), "polygon_corners": len(polys[0].idx)}
+		}
 		out, err := model3d.ReadOFF(strings.NewReader(text))
 		if err != nil {
 			c.Violationf("model3d.ReadOFF/polygon-error", wit, "%v", err)
